@@ -23,8 +23,14 @@ type hw struct {
 	tpmVer  hwapi.TPMVersion
 	nvPub   map[uint32][]byte
 	nvVal   map[uint32][]byte
-	sig     uint32
-	sigFull [4]uint32
+	// realNV: the NV part behaves like a TPM rather than like a lookup table - NVReadValue
+	// hands over exactly the requested number of bytes and refuses a read beyond the end of the
+	// index; an index that is not defined is reported with the error text of the TPM family
+	// in use; nvPubFail: the NV public read of the index fails for another reason.
+	realNV    bool
+	nvPubFail map[uint32]bool
+	sig       uint32
+	sigFull   [4]uint32
 }
 
 type seg struct {
@@ -127,8 +133,14 @@ func (h *hw) NewTPM() (*hwapi.TPM, error) {
 	return &hwapi.TPM{Version: h.tpmVer, RWC: nopRWC{}}, nil
 }
 func (h *hw) ReadNVPublic(t *hwapi.TPM, index uint32) ([]byte, error) {
+	if h.nvPubFail[index] {
+		return nil, fmt.Errorf("mock: NV public %#x: transmission failed", index)
+	}
 	b, ok := h.nvPub[index]
 	if !ok {
+		if h.realNV && h.tpmVer == hwapi.TPMVersion12 {
+			return nil, fmt.Errorf("mock: NV public %#x: tpm: the index to a PCR, DIR or other register is incorrect", index)
+		}
 		return nil, fmt.Errorf("mock: NV public %#x: error code 0xb", index)
 	}
 	return append([]byte{}, b...), nil
@@ -137,6 +149,12 @@ func (h *hw) NVReadValue(t *hwapi.TPM, index uint32, password string, size, offh
 	b, ok := h.nvVal[index]
 	if !ok {
 		return nil, fmt.Errorf("mock: NV value %#x not present", index)
+	}
+	if h.realNV {
+		if uint64(size) > uint64(len(b)) {
+			return nil, fmt.Errorf("mock: NV read of %d bytes from index %#x, which holds %d", size, index, len(b))
+		}
+		return append([]byte{}, b[:size]...), nil
 	}
 	return append([]byte{}, b...), nil
 }
